@@ -6,6 +6,14 @@ import numpy
 
 from .core import Driver, flist, frac
 
+LEVEL_TEXT = ("Proof: ge/le empirical probabilities equal #{x_i>=v}/n and #{x_i<=v}/n for every non-empty finite sample and "
+              "every query (induction over lists, kernel-checked), with the sum, bound and monotonicity corollaries; tied to the "
+              "code by an exhaustive correspondence over all multisets of size <=7 over 6 letters x 13 queries plus random "
+              "large samples with heavy ties.")
+LEVEL_NOTE = ("numpy.sort / numpy.searchsorted are modelled by their specification (sorted permutation, insertion point); the "
+              "float returned by the library is compared to Python's k/n exactly.")
+DESIGN_REF = "DESIGN.md §4 C09"
+
 THEOREMS = ["Ecdf.ge_ecdf_eq", "Ecdf.le_ecdf_eq", "Ecdf.ecdf_sum", "Ecdf.ge_anti", "Ecdf.le_mono",
             "Ecdf.empty_none", "Ecdf.quantiles_eq", "Ecdf.cnt_le_length"]
 TRUSTED = ["Lean 4.33 kernel", "axioms: propext, Classical.choice, Quot.sound at most",
